@@ -47,6 +47,11 @@ type caEcdhEvidence struct {
 }
 
 func selectChipAuthParams(doc *document.Document) (*ChipAuthParams, error) {
+	// NB the document may come from an imported bundle, so DG14 may be absent
+	if doc == nil || doc.Mf.Lds1.Dg14 == nil || doc.Mf.Lds1.Dg14.SecInfos == nil {
+		return nil, fmt.Errorf("[selectChipAuthParams] DG14 (SecurityInfos) is missing")
+	}
+
 	secInfos := doc.Mf.Lds1.Dg14.SecInfos
 
 	caInfo, caAlgInfo, algInferred, err := resolveCAInfo(secInfos)
